@@ -35,7 +35,7 @@ ASSUMPTIONS = [
     'Sample(N): at most N rows, strictly increasing source frames, first row is frame 0 (which frames a sample picks is C15)',
     'channel names are matched exactly as the format stores them (BIT/LIS mnemonics are 4 characters, blank padded)',
 ]
-PROBES = ['non_fixed_point_format', 'path_held_other_bytes_before', 'long_log_gt16384_rows', 'negative_step', 'x_not_resolved_by_format', 'empty_selection_skipped', 'step_not_dividing', 'sample_lt_frames', 'channel_subset', 'subset_unknown_name', 'multi_valued_reduced', 'value_wider_than_field', 'several_log_passes',
+PROBES = ['non_fixed_point_format', 'path_held_other_bytes_before', 'long_log_gt16384_rows', 'negative_step', 'readability_not_demanded', 'names_collide_after_strip', 'empty_selection_skipped', 'step_not_dividing', 'sample_lt_frames', 'channel_subset', 'subset_unknown_name', 'multi_valued_reduced', 'value_wider_than_field', 'several_log_passes',
           'indirect_x', 'conv_bit', 'conv_rp66v1', 'conv_lis', 'single_frame_selected', 'subset_includes_x']
 CONVERTERS_ENABLED = ['bit', 'rp66v1', 'lis']
 
@@ -287,11 +287,17 @@ def _execute(scenario, res, br):
         try:
             if len(set(x_tokens)) != len(x_tokens):
                 raise StopIteration
+            stripped_ = [c['name'].strip() for c in want_cols]
+            if len(set(stripped_)) != len(stripped_):
+                # channels of the source whose names differ only in surrounding blanks: LAS mnemonics cannot tell them apart, so
+                # no reader can be expected to accept the file; rows, columns and values are still checked below
+                res.probe('names_collide_after_strip')
+                raise StopIteration
             from TotalDepth.LAS.core import LASRead
             lr = LASRead.LASRead(io.StringIO(text.decode('latin1')), p['out'])
             _ = lr.frame_array
         except StopIteration:
-            res.probe('x_not_resolved_by_format')
+            res.probe('readability_not_demanded')
         except Exception as err:
             together = any(len(rw) < len(want_cols) for rw in las['rows'])
             res.violation('las-unreadable', f'{p["out"]}: LASRead raises {type(err).__name__}: {str(err)[:200]}', exc=type(err).__name__,
